@@ -44,7 +44,7 @@ ASSUMPTIONS = [
     "accept their parameters positionally or by these names (the documented signatures)",
     "a field is 'unchanged' when it compares equal, has the same type (for test_tags: is still a set or frozenset) "
     "and, for a timestamp, the same utcoffset",
-    "wall clock, one place: a single history (milliseconds of work) that has not returned after 30 s is reported as "
+    "wall clock, one place: a single history (milliseconds of work) that has not returned after 120 s is reported as "
     "a hang (start-stop:hang); after one such hang the limit drops to 3 s so that shrinking terminates",
 ]
 
@@ -141,7 +141,7 @@ class _Hang(BaseException):
     """Raised by the alarm handler inside a history that does not return."""
 
 
-_HANG_LIMIT = [30.0]
+_HANG_LIMIT = [120.0]
 
 
 @contextlib.contextmanager
